@@ -34,6 +34,18 @@ def lit(v):
 
 
 def mk_eq(a, b):
+    # Option / conditional values compare component-wise
+    if isinstance(a, tuple) and isinstance(b, tuple) and a and b:
+        if a[0] == 'some' and b[0] == 'some':
+            return mk_eq(a[1], b[1])
+        if {a[0], b[0]} == {'some', 'none'}:
+            return F
+        if a[0] == 'none' and b[0] == 'none':
+            return T
+        if a[0] == 'ite' and len(a) == 4:
+            return Or(And(a[1], mk_eq(a[2], b)), And(Not(a[1]), mk_eq(a[3], b)))
+        if b[0] == 'ite' and len(b) == 4:
+            return Or(And(b[1], mk_eq(a, b[2])), And(Not(b[1]), mk_eq(a, b[3])))
     # literal goes second; otherwise order by repr for symmetry
     if a[0] == 'lit' and b[0] != 'lit':
         a, b = b, a
@@ -75,6 +87,59 @@ def is_variant(t, variant):
     if t[0] == 'ite':
         return Or(And(t[1], is_variant(t[2], variant)), And(Not(t[1]), is_variant(t[3], variant)))
     return Atom(('is', t, variant))
+
+
+def split_ite_args(term, limit=8):
+    """[(condition, term')] with every `ite` occurring as a direct argument of the call term resolved to one of its branches
+       (f(ite(c, a, b), x)  ==>  [(c, f(a, x)), (!c, f(b, x))]); bounded"""
+    out = [(T, term)]
+    changed = True
+    while changed and len(out) <= limit:
+        changed = False
+        nxt = []
+        for c, t in out:
+            idx = None
+            if isinstance(t, tuple) and t and t[0] == 'call':
+                for i in range(2, len(t)):
+                    if isinstance(t[i], tuple) and t[i][:1] == ('ite',):
+                        idx = i
+                        break
+            if idx is None:
+                nxt.append((c, t))
+                continue
+            changed = True
+            it = t[idx]
+            nxt.append((And(c, it[1]), t[:idx] + (it[2],) + t[idx + 1:]))
+            nxt.append((And(c, Not(it[1])), t[:idx] + (it[3],) + t[idx + 1:]))
+        out = nxt
+    return out
+
+
+def call_atom(r):
+    """formula for the truth of a bool-valued call term; conditional arguments are lifted out so that the atoms are about
+       plain argument terms"""
+    parts = split_ite_args(r)
+    if len(parts) == 1:
+        return Atom(r)
+    return Or(*[And(c, Atom(t)) for c, t in parts])
+
+
+def variant_field(v, var, fname):
+    """field `fname` of enum value v known (by the matching arm) to be variant `var`; looks through conditional values whose other
+       branches are different variants"""
+    if isinstance(v, tuple) and v:
+        if v[0] == 'adt' and len(v) > 3 and v[2] == var:
+            return dict(v[3]).get(fname, ('vfield', v, var, fname))
+        if v[0] == 'ite' and len(v) == 4:
+            a_can = is_variant(v[2], var) != F
+            b_can = is_variant(v[3], var) != F
+            if a_can and not b_can:
+                return variant_field(v[2], var, fname)
+            if b_can and not a_can:
+                return variant_field(v[3], var, fname)
+            if a_can and b_can:
+                return mk_ite(v[1], variant_field(v[2], var, fname), variant_field(v[3], var, fname))
+    return ('vfield', v, var, fname)
 
 
 def payload(t, variant='Some'):
@@ -349,10 +414,8 @@ class Walker:
                     sub = payload(v, var)
                 elif var == 'Err' and adt.endswith('Result'):
                     sub = ('err_of', v)
-                elif v[0] == 'adt' and len(v) > 3 and v[2] == var:
-                    sub = dict(v[3]).get(f['f'], ('vfield', v, var, f['f']))
                 else:
-                    sub = ('vfield', v, var, f['f'])
+                    sub = variant_field(v, var, f['f'])
                 conds.append(self.bind(f['p'], sub, pc))
             return And(*conds)
         if k == 'Leaf':
@@ -945,7 +1008,7 @@ class Walker:
                     return val
             r = ('call', path) + tuple(args)
             if self.is_bool(n):
-                return mk_bool(Atom(r))
+                return mk_bool(call_atom(r))
             return r
 
         # ---- Option / Result
